@@ -269,6 +269,12 @@ func (o *snapshotter) Prepare(ctx context.Context, key, parent string, opts ...s
 			base.Labels[remoteLabel] = remoteLabelVal // Mark this snapshot as remote
 			err := o.commit(ctx, true, target, key, append(opts, snapshots.WithLabels(base.Labels))...)
 			verifhook.Point("snap.prepare.afterInternalCommit", o.root, key)
+			if errdefs.IsAlreadyExists(err) {
+				// Only a committed snapshot of that name means that the target exists.
+				if info, serr := o.Stat(ctx, target); serr != nil || info.Kind != snapshots.KindCommitted {
+					err = fmt.Errorf("target %q is used by a snapshot that isn't committed: %w", target, errdefs.ErrFailedPrecondition)
+				}
+			}
 			if err == nil || errdefs.IsAlreadyExists(err) {
 				// count also AlreadyExists as "success"
 				log.G(lCtx).WithField(remoteSnapshotLogKey, prepareSucceeded).Debug("prepared remote snapshot")
